@@ -29,6 +29,7 @@ class Exec:
         self.scalars: dict[str, Rat] = {}     # assigned / declared scalars
         self.local_arrays: dict[str, tuple] = {}  # name -> sizes
         self.loopvars: dict[str, int] = {}
+        self.decl_scopes: list[set] = [set()]
         self.outputs = set(outputs)
         self.steps = 0
         self.max_steps = max_steps
@@ -144,8 +145,12 @@ class Exec:
         if t[0] == "scalar":
             if t[1] in self.loopvars:
                 raise ExecError(f"assignment to loop variable {t[1]}")
+            if t[1] not in self.scalars and t[1] not in self.outputs:
+                raise ExecError(f"assignment to `{t[1]}`, which is neither declared in the kernel nor one of its outputs")
             self.scalars[t[1]] = v
         else:
+            if t[1] not in self.local_arrays and t[1] not in self.outputs:
+                raise ExecError(f"store into `{t[1]}{list(t[2])}`: the array is neither declared in the kernel nor one of its outputs (a kernel input / a table)")
             self.mem[(t[1], t[2])] = v
 
     def run(self, st):
@@ -162,8 +167,13 @@ class Exec:
             raise AnalysisError(f"lnexec: statement {type(st).__name__}")
         c, f = st.cls, st.f
         if c == "Section":
+            # as the formatters print it: the declarations in the enclosing scope, the statements in a block of their own
             self.run(f["declarations"])
-            self.run(f["statements"])
+            self.decl_scopes.append(set())
+            try:
+                self.run(f["statements"])
+            finally:
+                self.decl_scopes.pop()
         elif c == "StatementList":
             self.run(f["statements"])
         elif c == "Statement":
@@ -174,10 +184,12 @@ class Exec:
             pass
         elif c == "VariableDecl":
             n = f["symbol"].f["name"]
+            self.declare(n)
             val = f.get("value")
             self.scalars[n] = self.ev(val) if val is not None else None
         elif c == "ArrayDecl":
             n = f["symbol"].f["name"]
+            self.declare(n)
             sizes = f["sizes"]
             sizes = tuple(int(s) for s in (sizes if isinstance(sizes, (list, tuple)) else [sizes]))
             self.local_arrays[n] = sizes
@@ -212,10 +224,20 @@ class Exec:
                 raise ExecError(f"loop variable {name} is reused by a nested loop")
             for i in range(b, e):
                 self.loopvars[name] = i
-                self.run(f["body"])
+                self.decl_scopes.append(set())   # the loop body is a block: what it declares is new in every iteration
+                try:
+                    self.run(f["body"])
+                finally:
+                    self.decl_scopes.pop()
             self.loopvars.pop(name, None)
         else:
             raise AnalysisError(f"lnexec: statement class {c} not modelled")
+
+    def declare(self, name):
+        """a declaration in the current block; the same identifier twice in one block is a redefinition (a compile error in C, a silent rebind in Python)"""
+        if name in self.decl_scopes[-1]:
+            raise ExecError(f"`{name}` is declared twice in one block (redefinition)")
+        self.decl_scopes[-1].add(name)
 
     def result(self):
         out = {k: v for k, v in self.mem.items() if k[0] in self.outputs}
